@@ -161,6 +161,16 @@ CLAIMS = {
              "proofs inside the nested LV parsing of the filestore TLVs exceed the per-proof time budget and are listed as undecided "
              "in the evidence.",
         technique=TECH + "; finite case analysis over TLV types and action codes"),
+    "C18": dict(
+        text="Static analysis: each of the nine reserved-message builders is constructed with symbolic parameters and its packed TLV "
+             "compared per bit with the reference ('cfdp', type octet, fields of 727.0-B-5 6.2/6.3; widths enumerated); every getter "
+             "is run on the built message, where it may not answer None (valid messages are accepted, including empty file names) "
+             "and must return the built widths, and on a message with a symbolic value, where the decoded fields are compared per "
+             "bit with the reference offsets, reads are proven in bounds and the escape set is checked; the type classification "
+             "tables for every type octet 0..31; the reserved-message recogniser must have an empty raise log.",
+        note="Trusted: reference field tables in spverif/props/c18.py. Term-for-term identity of the decoded LV names of a put request "
+             "with the built ones is not decided (LV decoding is C08's obligation).",
+        technique=TECH + "; empty-escape-set (purity) check from the raise log"),
 }
 
 NOT_CLAIMED = {}
